@@ -252,3 +252,27 @@ func LoopCut(src []byte, n int8) ([]byte, int, int) {
 	}
 	return cur, total, rounds
 }
+
+// a struct with a member outside the subset (left out of the generated record) and assignments to single members
+type Pkt struct {
+	Ver  int16
+	Id   int32
+	Tags map[string]string
+	Ret  int32
+	Desc string
+}
+
+func FillPkt(ver int16, code int32, bad bool) Pkt {
+	p := Pkt{}
+	p.Ver = ver
+	p.Id = code + 1
+	if bad {
+		p.Ret = 1
+		p.Desc = "bad"
+		if code > 1 {
+			p.Ret = code
+		}
+	}
+	p.Ver = p.Ver + int16(p.Ret)
+	return p
+}
